@@ -205,6 +205,118 @@ static void p2p(vh::Rng & r, int type, vh::Out & out)
     .mat("Hm", Hm).b("ex", ok));
 }
 
+// generic real-valued instances: residuals in units of 1e-12 (float: capped at 2e9 = 2e-3)
+template<class PT, size_t DIM>
+static void generic(vh::Rng & r, bool svdPart, bool p2pPart, vh::Out & out)
+{
+  using S = typename PT::Scalar;
+  using MatD = Eigen::Matrix<double, DIM, DIM>;
+  using VecD = Eigen::Matrix<double, DIM, 1>;
+  auto u = [&]() {return (double)r.range(-1000000, 1000000) / 1000000.0;};
+  auto units = [](double v) {double x = std::fabs(v) * 1e12; return x < 2e9 ? (long long)std::llround(x) : 2000000000LL;};
+  std::vector<long long> res;
+  // a random proper rotation: any axis, angle up to pi
+  MatD R; VecD t;
+  {
+    double ang = u() * M_PI;
+    if (DIM == 2) {R(0, 0) = std::cos(ang); R(0, 1) = -std::sin(ang); R(1, 0) = std::sin(ang); R(1, 1) = std::cos(ang);}
+    else {
+      Eigen::Vector3d ax(u(), u(), u()); if (ax.norm() < 1e-3) {ax = Eigen::Vector3d(0, 0, 1);}
+      Eigen::Matrix3d R3 = Eigen::AngleAxisd(ang, ax.normalized()).toRotationMatrix();
+      for (size_t i = 0; i < DIM; ++i) {for (size_t j = 0; j < DIM; ++j) {R(i, j) = R3(i, j);}}
+    }
+    for (size_t a = 0; a < DIM; ++a) {t[a] = u() * 30;}
+  }
+  if (svdPart) {
+    int n = (int)r.range(4, r.coin(1, 5) ? 500 : 40);
+    int shape = (int)r.range(0, 2);                                    // generic, coplanar (3D), noisy
+    std::vector<VecD> src(n), tgt(n);
+    for (int k = 0; k < n; ++k) {
+      for (size_t a = 0; a < DIM; ++a) {src[k][a] = u() * 20;}
+      if (shape == 1 && DIM == 3) {src[k][DIM - 1] = 1.5;}
+      tgt[k] = R * src[k] + t;
+      if (shape == 2) {for (size_t a = 0; a < DIM; ++a) {tgt[k][a] += u() * 0.05;}}
+    }
+    PointSet<PT> ps(n), pt(n);
+    for (int k = 0; k < n; ++k) {
+      std::vector<double> a(src[k].data(), src[k].data() + DIM), b(tgt[k].data(), tgt[k].data() + DIM);
+      ps[k] = mkd<PT, DIM>(a, 1.0); pt[k] = mkd<PT, DIM>(b, 1.0);
+    }
+    // independent Kabsch / Umeyama solution (double), on the values the estimator actually sees
+    VecD ms = VecD::Zero(), mt = VecD::Zero();
+    for (int k = 0; k < n; ++k) {for (size_t a = 0; a < DIM; ++a) {ms[a] += (double)ps[k][a]; mt[a] += (double)pt[k][a];}}
+    ms /= n; mt /= n;
+    MatD C = MatD::Zero();
+    for (int k = 0; k < n; ++k) {VecD x, y; for (size_t a = 0; a < DIM; ++a) {x[a] = (double)ps[k][a] - ms[a]; y[a] = (double)pt[k][a] - mt[a];} C += y * x.transpose();}
+    Eigen::JacobiSVD<Eigen::MatrixXd> sv(C, Eigen::ComputeFullU | Eigen::ComputeFullV);
+    Eigen::MatrixXd Dg = Eigen::MatrixXd::Identity(DIM, DIM);
+    if ((sv.matrixU() * sv.matrixV().transpose()).determinant() < 0) {Dg(DIM - 1, DIM - 1) = -1;}
+    MatD Rk = sv.matrixU() * Dg * sv.matrixV().transpose();
+    VecD tk = mt - Rk * ms;
+    double scale = r.pick(std::vector<double>{1, 0.5, 4, 0.1, 10});
+    FindRigidTransformationBySVD<PT> est;
+    typename FindRigidTransformationBySVD<PT>::TransformationMatrixType H;
+    int how = (int)r.range(0, 3);
+    std::vector<Correspondence> cs; for (int k = 0; k < n; ++k) {cs.push_back(Correspondence((size_t)k, (size_t)k));}
+    if (how == 0) {H = est.find(ps, pt);} else if (how == 1) {H = est.find(ps, pt, cs);}
+    else {PreconditionedPointSet<PT> a(ps, (S)scale), b(pt, (S)scale); H = how == 2 ? est.find(a, b) : est.find(a, b, cs);}
+    double e1 = 0, e2 = 0;
+    for (size_t i = 0; i < DIM; ++i) {
+      for (size_t j = 0; j < DIM; ++j) {e1 = std::max(e1, std::fabs((double)H(i, j) - Rk(i, j)));}
+      e2 = std::max(e2, std::fabs((double)H(i, DIM) - tk[i]) / 50.0);
+    }
+    MatD Hl; for (size_t i = 0; i < DIM; ++i) {for (size_t j = 0; j < DIM; ++j) {Hl(i, j) = (double)H(i, j);}}
+    res.push_back(units(e1)); res.push_back(units(e2));                                            // agrees with the independent Kabsch solution
+    res.push_back(units((Hl * Hl.transpose() - MatD::Identity()).cwiseAbs().maxCoeff()));          // orthonormal
+    res.push_back(units(Hl.determinant() - 1));                                                    // proper
+    if (shape != 2) {                                                                              // noise free: the motion itself
+      double e3 = 0; for (size_t i = 0; i < DIM; ++i) {for (size_t j = 0; j < DIM; ++j) {e3 = std::max(e3, std::fabs((double)H(i, j) - R(i, j)));}}
+      // float inputs are rounded versions of the exact targets: the recovered motion is exact up to that rounding
+      res.push_back(units(sizeof(S) == 4 ? e3 / 50.0 : e3));
+    }
+  }
+  if (p2pPart) {
+    const size_t NP = DIM == 2 ? 3 : 6;
+    int n = (int)r.range(DIM == 2 ? 8 : 16, 60);
+    Eigen::VectorXd xs(NP);
+    for (size_t k = 0; k < DIM; ++k) {xs[k] = u() * 10;}
+    for (size_t k = DIM; k < NP; ++k) {xs[k] = u() * 0.1;}
+    PointSet<PT> ps(n), pt(n); NormalSet<PT> ns(n);
+    Eigen::MatrixXd J(n, (int)NP);
+    for (int k = 0; k < n; ++k) {
+      VecD s, nn;
+      for (size_t a = 0; a < DIM; ++a) {s[a] = u() * 10; nn[a] = u();}
+      if (nn.norm() < 0.1) {nn[0] = 1;}
+      nn.normalize();
+      std::vector<double> sv(s.data(), s.data() + DIM), nv(nn.data(), nn.data() + DIM);
+      ps[k] = mkd<PT, DIM>(sv, 1.0); ns[k] = mkd<PT, DIM>(nv, 0.0);
+      // the row as the estimator will see it (rounded to S)
+      Eigen::VectorXd row(NP);
+      double sx = (double)ps[k][0], sy = (double)ps[k][1], nx = (double)ns[k][0], ny = (double)ns[k][1];
+      if (DIM == 2) {row << nx, ny, sx * ny - sy * nx;}
+      else {double sz = (double)ps[k][2], nz = (double)ns[k][2]; row << nx, ny, nz, sy * nz - sz * ny, sz * nx - sx * nz, sx * ny - sy * nx;}
+      J.row(k) = row.transpose();
+      double y = row.dot(xs);
+      std::vector<double> g(DIM); for (size_t a = 0; a < DIM; ++a) {g[a] = (double)ps[k][a] + y * (double)ns[k][a];}
+      pt[k] = mkd<PT, DIM>(g, 1.0);
+    }
+    Eigen::JacobiSVD<Eigen::MatrixXd> sv(J.transpose() * J);
+    if (sv.singularValues()(NP - 1) > 0 && sv.singularValues()(0) / sv.singularValues()(NP - 1) < 1e4) {
+      FindRigidTransformationByLeastSquares<PT> est;
+      std::vector<Correspondence> cs; for (int k = 0; k < n; ++k) {cs.push_back(Correspondence((size_t)k, (size_t)k));}
+      auto H = r.coin() ? est.find(ps, pt, ns) : est.find(ps, pt, ns, cs);
+      Eigen::VectorXd x(NP);
+      if (DIM == 2) {x << (double)H(0, 2), (double)H(1, 2), (double)H(1, 0);}
+      else {x << (double)H(0, 3), (double)H(1, 3), (double)H(2, 3), (double)H(2, 1), (double)H(0, 2), (double)H(1, 0);}
+      res.push_back(units((x - xs).cwiseAbs().maxCoeff() / (sizeof(S) == 4 ? 10.0 : 1.0)));
+      // skew structure of the returned matrix
+      double sk = 0; for (size_t i = 0; i < DIM; ++i) {for (size_t j = 0; j < DIM; ++j) {sk = std::max(sk, std::fabs((double)H(i, j) + (double)H(j, i) - (i == j ? 2.0 : 0.0)));}}
+      res.push_back(units(sk));
+    }
+  }
+  out.put(vh::Ev("generic").i("dim", DIM).i("float", sizeof(S) == 4).vec("res", res));
+}
+
 int main(int argc, char ** argv)
 {
   if (argc != 6 || std::string(argv[1]) != "random") {std::fprintf(stderr, "usage: drive_rigid random seed n svd|p2p|both out\n"); return 3;}
@@ -214,6 +326,14 @@ int main(int argc, char ** argv)
   vh::Out out(argv[5]);
   for (int k = 0; k < n; ++k) {
     if (k % 50 == 0) {out.put(vh::Ev("Reset"));}
+    switch (k % 8) {
+      case 0: generic<Eigen::Vector2d, 2>(r, doSvd, doP2p, out); break;
+      case 1: generic<Eigen::Vector3d, 3>(r, doSvd, doP2p, out); break;
+      case 2: generic<HomogeneousCoordinates3d, 3>(r, doSvd, doP2p, out); break;
+      case 3: generic<Eigen::Vector3f, 3>(r, doSvd, doP2p, out); break;
+      case 4: generic<HomogeneousCoordinates2f, 2>(r, doSvd, doP2p, out); break;
+      default: generic<HomogeneousCoordinates2d, 2>(r, doSvd, doP2p, out);
+    }
     switch (k % 8) {
       case 0: if (doSvd) {svd<Eigen::Vector2d, 2>(r, 0, out);} if (doP2p) {p2p<Eigen::Vector2d, 2>(r, 0, out);} break;
       case 1: if (doSvd) {svd<Eigen::Vector2f, 2>(r, 1, out);} if (doP2p) {p2p<Eigen::Vector2f, 2>(r, 1, out);} break;
